@@ -626,6 +626,9 @@ def generate(prop, seed, tier):
     thorough = tier == 'thorough'
     m = r.randint(1, 6)
     nruns = r.choice([1, 1, 1, 2, 3] + ([4, 5] if thorough else []))
+    ml = rng.stream(seed, 'mlong')
+    if ml.random() < 0.03:
+        m = ml.randint(257, 520)          # traces of several hundred samples (a kernel blocked over the sample axis takes more than one block)
     sets = [[_w(r, [(r.randint(1, 8), 3), (r.randint(9, 30), 3), (r.randint(31, 60), 1)]) for _ in range(2)] for _ in range(nruns)]
     rule = _w(r, [(r.randint(1, 4), 4), (r.randint(5, 12), 3), (r.randint(13, 70), 1), (r.choice([1e-5, 5e-5]), 0.7), ([[0, 3], [4, 7]], 0.7)])
     bg = rng.stream(seed, 'bigsets')
@@ -650,7 +653,7 @@ def generate(prop, seed, tier):
            'rule_flip': None, 'stall': None, 'faults': []}
     if rng.stream(seed, 'dtypeb').random() < 0.15:
         scn['tdtype_b'] = rng.stream(seed, 'dtypeb2').choice(['uint8', 'int16', 'float32'])
-    if rng.stream(seed, 'kernelpy').random() < 0.25 and max(max(p) for p in sets) <= 60:
+    if rng.stream(seed, 'kernelpy').random() < 0.25 and max(max(p) for p in sets) <= 60 and m <= 8:
         # the accumulation kernels run from their Python source: their lines are pre-emption points (interleavings inside the kernels)
         scn['kernel_py'] = True
     if rng.stream(seed, 'wide16').random() < 0.5:
@@ -659,6 +662,8 @@ def generate(prop, seed, tier):
         # float regime of the t-test: float64 (or float32) traces with non-integer values
         scn['tdtype'] = rng.stream(seed, 'frac2').choice(['float64', 'float64', 'float32'])
         scn['frac'] = rng.stream(seed, 'frac3').choice([30.0, 0.25, 1000.0])
+        # ... in another physical unit (volts instead of ADC counts, or microvolts): the Welch statistic is scale invariant
+        scn['fscale'] = rng.stream(seed, 'frac4').choice([1, 1, 1e-4, 1e-6, 1e3])
     if nruns >= 2 and rng.stream(seed, 'rundtypes').random() < 0.35:
         # each run() may bring traces of another storage dtype (an acquisition continued with another scope setting)
         rd = rng.stream(seed, 'rundtypes2')
@@ -722,14 +727,14 @@ def make_sets(scn):
                 amp = min(scn['amp'], 254) if td == np.dtype('int8') else scn['amp']
                 if td == np.dtype('int16') and scn.get('wide16'):
                     amp = scn['wide16']
-            raw = g.integers(0, 1 << 16, (max(64, n), 8))
+            raw = g.integers(0, 1 << 16, (max(64, n), max(8, scn['m'])))
             s = raw[:n, :scn['m']] % (amp + 1)
             if td.kind != 'u':
                 s = s - amp // 2
             if scn.get('frac') and td.kind == 'f':
                 # non-integer samples around an offset: not exactly representable in a narrower float (the Welch reference is exact rational
                 # arithmetic on the values as stored, with a forward rounding bound of the requested precision)
-                s = s / 7.0 + scn['frac']
+                s = (s / 7.0 + scn['frac']) * (scn.get('fscale') or 1)
             p.append(s.astype(td))
         out.append(p)
     return out
